@@ -124,7 +124,7 @@ func (t *Table) readMeta(r io.Reader) (total int64, err error) {
 
 func (t *Table) readBlock(r io.Reader) (int, []byte, error) {
 	b := make([]byte, 16)
-	n, err := r.Read(b)
+	n, err := io.ReadFull(r, b)
 	if err != nil {
 		return 0, nil, err
 	}
